@@ -95,7 +95,7 @@ Theorem batch_read_cap_budget c m s t maxb ck start s' os :
   N.of_nat (length os) <= c_max_entries c /\
   (N.min usize_max (sum_out_len os) <= maxb \/ (length os <= 1)%nat).
 Proof.
-  unfold batch_read. intros H.
+  unfold batch_read, br_from. generalize (br_position c (get_ts s (t_id t)) start). intros pos H.
   repeat match type of H with
   | (let '(_, _) := ?x in _) = _ => destruct x
   | context [match ?x with _ => _ end] => destruct x eqn:?
